@@ -13,7 +13,7 @@ ROOT = os.path.dirname(os.path.dirname(os.path.abspath(__file__)))
 
 
 def sh(cmd, cwd=None, timeout=3600):
-    env = dict(os.environ, CARGO_NET_OFFLINE="true", CARGO_TARGET_DIR="/tmp/seedconfirm_target", PYO3_PYTHON="/usr/bin/python3")
+    env = dict(os.environ, CARGO_NET_OFFLINE="true", CARGO_TARGET_DIR=os.environ.get("SEEDCONFIRM_TARGET", "/tmp/seedconfirm_target"), PYO3_PYTHON="/usr/bin/python3")
     return subprocess.run(cmd, shell=True, cwd=cwd, capture_output=True, text=True, env=env, timeout=timeout)
 
 
@@ -29,6 +29,7 @@ def main():
     conf = {"repo_head": sh("git -C /repo rev-parse --short HEAD").stdout.strip()}
     try:
         demo_dst = os.path.join(wt, crate_dir, "tests", "seed_demo.rs")
+        os.makedirs(os.path.dirname(demo_dst), exist_ok=True)
         # without the change: demo passes
         shutil.copy(os.path.join(src, "demo.rs"), demo_dst)
         r = sh("cargo test --offline -p %s --test seed_demo" % pkg, cwd=wt)
